@@ -320,6 +320,15 @@ bool Interp::exec_coll(Interp &I, const Stmt &s)
         with_shape(v.shape, [&]<typename S>() { wire<CLive<S>>(w, Port<S>{w, v.ref}, uid); });
         return true;
     }
+    if (s.op == "gate4")
+    {
+        // gate4 <a> <b> <c> <d> uid=<u> drop=0|1|2 at=<n> back=<m>: xs = {a, b}, ys = {c, d} (see VGate4)
+        auto xs = stdlib::to_tsl<S_PAIR>(w, I.pi(a.at(0)), I.pi(a.at(1))).template as<S_PAIR>();
+        auto ys = stdlib::to_tsl<S_PAIR>(w, I.pi(a.at(2)), I.pi(a.at(3))).template as<S_PAIR>();
+        auto out = wire<VGate4>(w, xs, ys, uid, Int{s.kwi("drop", 2)}, Int{s.kwi("at", 1)}, Int{s.kwi("back", 0)});
+        I.env[s.dst] = PortVal{out.erased(), PT::Int, "ts"};
+        return true;
+    }
     if (s.op == "crecord" && !s.kwi("sparse", 0))
     {
         PortVal v = I.get(a.at(0));
